@@ -20,16 +20,16 @@ BUILT = {
          "Histories (incl. clear / rewind / discard_freelist) on real files cut by drop+reopen in the four open modes and their *_with_path_builder forms with same/larger/absent capacity, read-only reopens with generated leftover write flags; state tuple, free list and all handed-out bytes compared across each reopen; shadow map carried over so later allocations are checked against pre-close live ranges.",
          "tmpfs files; durability (sync_all) not observable in-process", "5/C05"),
  "C06": ("engine-a", "fault_enumeration", "crash-point enumeration: memory() snapshot before every atomic access of every operation (verif hook), each reopened with map_mut and driven by a generated post-crash history",
-         "One generated history is executed once while every atomic step is recorded as a crash point (copy of memory() = what a MAP_SHARED file holds at that instant). quick evaluates <= 32 points per history (all steps of one free-list operation + a sample), thorough all of them: reopen, cursor range, pre-crash live bytes, then a generated post-crash history with the pre-crash live ranges in the shadow map and a no-progress budget for termination.",
+         "One generated history (allocation / release traffic, discard_freelist, clear, rewind, increase_discarded) is executed once while every atomic step is recorded as a crash point (copy of memory() = what a MAP_SHARED file holds at that instant). quick evaluates <= 32 points per history (all steps of one free-list operation + a sample), thorough all of them: reopen, cursor range, pre-crash live bytes, then a generated post-crash history with the pre-crash live ranges in the shadow map and a no-progress budget for termination.",
          "crash = page cache at that instant (the statement's model); Vec+unify memory() stands for the file bytes (equivalence checked by C16 and by the 10% file/anon share)", "5/C06"),
  "C07": ("engine-b", "exploration", "controlled-scheduler concurrency testing with a no-progress (all threads stalled) detector as bounded safety surrogate for liveness",
          "Same engine as C02 with threads that keep allocations forever or finish early; violation iff every unfinished thread has re-examined an unchanging state for more than L scheduling points (then no call can ever return). Starvation under an infinite fair schedule is out of reach and counted as inconclusive when a per-operation budget trips.",
          "liveness is decided through a bounded safety surrogate; fair round-robin fallback schedule", "4.3, 5/C07"),
  "C08": ("engine-a", "exploration", "stateful property testing with dirty-fill owners, all-zero predicate at alloc_bytes return",
-         "Every owner dirties its range; every alloc_bytes/alloc_bytes_owned return is checked byte-for-byte for zero across fresh, rewound, top-released, recycled and reopened space (5/6 Engine A histories) and across ranges recycled between threads under a generated schedule (1/6 Engine B programs).",
+         "Every owner dirties its range; every alloc_bytes/alloc_bytes_owned return is checked byte-for-byte for zero across fresh, rewound, top-released, recycled and reopened space, incl. a rare class of large arenas with buffers of tens of pages (5/6 Engine A histories) and across ranges recycled between threads under a generated schedule (1/6 Engine B programs).",
          "same as C01", "5/C08"),
  "C09": ("file-engine", "exploration", "mutation-based property testing of every open variant against a field-level validity oracle; byte-for-byte file comparison; read-only op sessions; supervised worker processes",
-         "A valid arena file from a generated history (with stale bytes above the cursor) is mutated (identification bytes, truncation, arbitrary replacement, wrong expected options) and opened through all eight variants (map_mut / map_copy / map / map_copy_read_only and their *_with_path_builder forms), read-only variants also with any combination of truncate / append / create / create_new / write left set on the Options; refused opens must be refused exactly when the decoded fields demand it and must leave the file prefix identical. Read-only sessions run generated sequences over the safe mutating API: ReadOnly / documented panic / unchanged state, never a signal, file identical afterwards.",
+         "A valid arena file from a generated history (with stale bytes above the cursor) is mutated (identification bytes, truncation, arbitrary replacement, wrong expected options; in one case in four on top of the crash state of the free list) and opened through all eight variants (map_mut / map_copy / map / map_copy_read_only and their *_with_path_builder forms), read-only variants also with any combination of truncate / append / create / create_new / write left set on the Options; refused opens must be refused exactly when the decoded fields demand it and must leave the file prefix identical. Read-only sessions run generated sequences over the safe mutating API: ReadOnly / documented panic / unchanged state, never a signal, file identical afterwards.",
          "for writable opens with_truncate(true), create_new on an existing path and remove_on_drop(true) are excluded (the caller asked for the change / the OS refuses first / documented deletion)", "5/C09"),
  "C10": ("engine-a", "exploration", "stateful property testing, free-list snapshot invariants + policy predicate on the serving node",
          "After every step the raw free-list snapshot is checked for well-formedness and ordering; every allocation that fresh space cannot satisfy is checked against the Optimistic/Pessimistic/None policy and the remainder rule.",
@@ -41,7 +41,7 @@ BUILT = {
          "Programs with cross-thread hand-over of recycled ranges, owned buffers sent between threads, arena clones dropped on other threads, and a program family that nests removal windows on neighbouring nodes of one list (up to 5 threads, every marker pre-empted after its mark); happens-before is computed from the actual Ordering arguments reported by the hook; any unordered pair of accesses to a common byte with a non-atomic side is a violation.",
          "judged on sequentially consistent interleavings; SeqCst treated as AcqRel", "4.4, 5/C12"),
  "C13": ("engine-a", "exploration", "stateful property testing (release-exactly-once predicates, drop counters, refs() model, unmount event counter) + controlled-scheduler clone/drop interleavings with a reference-count oracle",
-         "Clone/alloc/to-owned/detach/drop in any order incl. original first, with a generated teardown order; per-drop state delta must equal exactly one dealloc of the buffer extent; values of drop-counting types (sized, and zero-sized guard types) dropped exactly once by the time their non-detached handle is gone; Unmount event exactly once at the last holder. One case in six is a multi-threaded Engine B program (clones, owned buffers sent between threads) in which every access to the reference count must observe the model's number of live arena values and the memory is released once, by the last holder, under the scheduler.",
+         "Clone/alloc/to-owned/detach/drop in any order incl. original first, with a generated teardown order; per-drop state delta must equal exactly one dealloc of the buffer extent; values of drop-counting types (sized, and zero-sized guard types) dropped exactly once by the time their non-detached handle is gone; Unmount event exactly once at the last holder; when the last holder of a file-backed arena is an owned handle its release is read back from the file. One case in six is a multi-threaded Engine B program (clones, owned buffers sent between threads) in which every access to the reference count must observe the model's number of live arena values and the memory is released once, by the last holder, under the scheduler.",
          "Unmount event at the top of Memory::unmount stands for the release of the backing store", "5/C13"),
  "C14": ("buffer-engine", "exploration", "property testing of every buffer writer/reader against a reference encoder with whole-arena before/after snapshots and canary neighbours; round-trip relations",
          "One generated buffer (fresh / recycled / aligned at odd cursor, borrowed / owned, capacity 0..96, any fill level) between canary neighbours; 1..5 generated calls over 12 integer types x 3 byte orders, LEB128, slices, set_len, align_to/put/put_aligned over the type table; out-of-buffer bytes compared byte for byte after every call; checked and unchecked builds.",
@@ -50,13 +50,13 @@ BUILT = {
          "Arena filled with continuation-heavy content and rewound so that non-zero bytes lie above allocated(); every reader at generated offsets; fixed-width results compared with a reference decode iff the value lies below the mark (u128 arithmetic), varint results compared with the decoder applied to exactly the bytes below the mark.",
          "const_varint (the crate rarena delegates to) is the varint reference for the slice; an independent LEB128 decoder cross-checks unsigned values", "5/C15"),
  "C16": ("engine-a", "exploration", "property testing of constructors against Options::data_offset*, accessor table, and 3-way differential (Vec/anon/file, unified layout) with memory() hashes per step",
-         "Constructor cases around the prefix size for reserved 0..=4096 on all backends and both flavours, accessor table and first-allocation offset; then one history in lock-step on Vec, anonymous-mmap and file arenas with byte-identical memory() after every step.",
+         "Constructor cases around the prefix size for reserved 0..=4096 on all backends and both flavours, accessor table and first-allocation offset; the accessor table, data_offset() and the remaining law are re-checked after every step for every live arena value (clones, reopened files); then one history in lock-step on Vec, anonymous-mmap and file arenas with byte-identical memory() after every step.",
          "Options::data_offset / data_offset_unify are the reference, as the statement says", "5/C16"),
  "C17": ("engine-a", "exploration", "stateful property testing with an i128 reference clamp for rewind; metamorphic relation cleared arena == fresh arena under the same continuation; checked and unchecked builds",
          "Boundary-dense ArenaPosition values in every reachable state against an i128 reference; clear followed by a generated continuation also run on a fresh arena, observation streams compared.",
          "rewind/clear contracts respected by the harness (handles above the new cursor forgotten, free list reaching above it discarded first)", "5/C17"),
  "C18": ("engine-a", "exploration", "stateful property testing on unsync::Arena with truncate steps, before/after state relation",
-         "truncate(n) for n around allocated/capacity and up to 4x capacity on the three backends after histories with free list and detached live data; capacity law, unchanged state and bytes, later fitting allocations must succeed.",
+         "truncate(n) for n around allocated/capacity and up to 4x capacity on the three backends after histories with free list and detached live data, incl. file arenas reopened writable or copy-on-write; capacity law, unchanged state and bytes, later fitting allocations must succeed.",
          "truncate only while refs()==1 and no handle object exists", "5/C18"),
  "C19": ("checksum-engine", "exploration", "property testing: chunked checksum == one-shot checksum by the same builder, with a position-sensitive second builder",
          "Allocated lengths hit exactly at k*page-2..k*page+2 for k<=3 plus random lengths, reserved 0..=64, three backends; checksum(b) compared with b.checksum_one(allocated_memory()[reserved_bytes()..]) - both sides as the arena reports them - for Crc32 and a position-weighted sum that detects dropped/repeated/reordered chunks.",
